@@ -268,7 +268,7 @@ ROUND11 = {
 }
 # round 14 (DESIGN 8.5, round 14)
 ROUND14 = {
- "C10": "additions-tested-against-close: an entry is appended to a list that the owner's Close sweeps and empties only under a test, dominating the append with no Unlock in between, of a flag that Close sets (SSA dominators; found D19)",
+ "C10": "additions-tested-against-close: an entry is added (append on a slice field, update of a map field) to a collection of closeable things that a Close method of the owner resets or ranges over only under a test, dominating the addition with no Unlock in between, of a bool field that this Close sets — in the function itself or at every call site of an add-only helper; objects under construction exempt (SSA dominators over all functions; 10 sites; found D19 and D20)",
  "C18": "the best-effort test on the deadline arm is the same SSA value that chose the timer source before the wait (a second reading of the option is refused)",
 }
 # rule families added after seeded round 12 (DESIGN 8.5, round 12)
